@@ -399,6 +399,12 @@ def _retry_rule(ctx, cname, mname, counter, terminal_pred):
         ctx.check("%s.%s:resends" % (cname, mname), len(sends) >= 1, where(c.module, f), "the retransmit branch sends nothing")
         timers = [n for n in nodes if isinstance(n, ast.Call) and self_call(n) in ("start_timer", "restart_timer", "indication")]
         ctx.check("%s.%s:rearms" % (cname, mname), len(timers) >= 1, where(c.module, f), "the retransmit branch does not re-arm the timer")
+        # the timer has just fired: it must be armed again before anything that can raise (get_segment refuses a bad index),
+        # otherwise a failing retransmission leaves a live transaction without any timer
+        if timers and sends:
+            risky = [n for n in nodes if isinstance(n, ast.Call) and self_call(n) in ("fill_window", "get_segment", "request", "response")]
+            ctx.check("%s.%s:rearms-before-resend" % (cname, mname), nodes.index(timers[0]) < nodes.index(risky[0]) if risky else True, where(c.module, f),
+                      "the timer is re-armed only after the retransmission: if get_segment()/fill_window() raises, the transaction stays for ever without a timer")
         # re-entrant indication resets the counter: must be restored from a local saved after the increment
         reent = [n for n in nodes if isinstance(n, ast.Call) and self_call(n) == "indication"]
         if reent and incs:
@@ -436,6 +442,22 @@ def r5(ctx):
             break
     else:
         pass
+    # the segment retry counter is cleared only when the peer made progress (an ack inside the window moves it on)
+    for cname, mname in (("ClientSSM", "segmented_request"), ("ServerSSM", "segmented_response")):
+        cc = ctx.prog.cls(MOD, cname)
+        f = cc.methods.get(mname)
+        if f is None:
+            raise AnchorMissing("%s.%s" % (cname, mname))
+        from ..guards import atoms_of_facts
+        zs = [s_ for t, s_ in attr_stores(f, "segmentRetryCount") if isinstance(s_, ast.Assign) and ctx.prog.try_const(cc.module, s_.value) == 0]
+        okz = bool(zs)
+        for z in zs:
+            at = atoms_of_facts(facts_at(z, check_kills=False))      # the guard as evaluated (the branch then moves the window)
+            inw = [(a, p) for a, p in at if isinstance(a, ast.Call) and self_call(a) == "in_window"]
+            if not (len(inw) == 1 and inw[0][1] is True):
+                okz = False
+        ctx.check("%s.%s:retry-reset-only-on-progress" % (cname, mname), okz, where(cc.module, f),
+                  "segmentRetryCount is cleared on a segment-ack that is not inside the window (e.g. a repeated NAK): a lost segment is then retransmitted for ever")
     # numberOfApduRetries / timeouts come from the configuration (local device or SAP default)
     base = ctx.prog.cls(MOD, "SSM")
     init = base.methods["__init__"]
